@@ -9,6 +9,7 @@
    [run_outcome evs ws es] (Proofs/WireCoverage.v): ws / es are the (address, port) of the frames written
    and the causes of the errors logged, in log order, in SOME such run on the request stream [to_reqs evs]. *)
 From stdpp Require Import list.
+From SX Require Model.PipelineShape.
 From SX Require Import Base.Net Proofs.PipelineOrder Proofs.PipelineWire.
 From Coq Require Import ZArith.
 From SX Require Import Model.IPNet Model.Targets Model.FileTargets Model.TargetWiring Proofs.FileTargetsProofs Proofs.WiringProofs
@@ -46,6 +47,11 @@ Proof.
   apply C13_scan_faithful. apply (C13_commands_pairs cmd Hin KPortPacket f inp Hc); auto.
 Qed.
 
+(* the goroutine structure of the packet pipeline in the current sources is the one Model/Pipeline.v was
+   written against (the same pin as C07_shape; here because the theorems above speak about that model) *)
+Theorem C13_pipeline_shape : PipelineShape.shape_ok = true.
+Proof. vm_compute. reflexivity. Qed.
+
 (* ---- non-vacuity: a pair file [good; port 70000; good] through a 2-worker pipeline under a round-robin
    schedule: a complete uncancelled run exists; two frames, one error record "invalid port" ---- *)
 From SX Require Import Base.NetExec.
@@ -72,6 +78,7 @@ Proof.
     rewrite Forall_forall in H. exact (H ch Hch).
 Qed.
 
+Print Assumptions C13_pipeline_shape.
 Print Assumptions C13_engine_faithful.
 Print Assumptions C13_scan_faithful.
 Print Assumptions C13_pairs_error_records.
